@@ -98,6 +98,8 @@ HISTORIES = {
                          ('file', '/B.;1', 9)]),
     'removed-and-added-again': (dict(), [('file', '/BOOT.;1', 2048), ('eltorito', '/BOOT.;1', dict(bootcatfile='/BOOT.CAT;1')), ('rm_eltorito',), ('file', '/OTHER.;1', 2049),
                                          ('eltorito', '/OTHER.;1', dict(bootcatfile='/NEW.CAT;1', boot_load_size=1))]),
+    'hidden-boot-file-with-table': (dict(), [('file', '/BOOT.;1', 100, BOOT_A[:100]), ('eltorito', '/BOOT.;1', dict(bootcatfile='/BOOT.CAT;1', boot_info_table=True)),
+                                             ('rm_link', '/BOOT.;1'), ('file', '/A.;1', 3)]),
     'hidden-boot-file': (dict(), [('file', '/BOOT.;1', 100), ('eltorito', '/BOOT.;1', dict(bootcatfile='/BOOT.CAT;1')), ('rm_link', '/BOOT.;1'), ('file', '/A.;1', 3)]),
 }
 
@@ -240,7 +242,7 @@ class BootImage(Base):
     history = 'basic'
     reopen = False
     crosscheck = False
-    label = property(lambda self: 'pycdlib.PyCdlib.write_fp<boot:%s%s>' % (self.history, ' reopened' if self.reopen else ''))
+    label = property(lambda self: 'pycdlib.PyCdlib.write_fp<boot:%s%s>' % (self.history, {False: '', True: ' reopened', 'edit': ' reopened and edited'}[self.reopen]))
 
     def setup(self, c):
         S.pin_environment(c)
@@ -252,6 +254,22 @@ class BootImage(Base):
             a.first = first
             a.iso = c.new(S.PC)
             S.call(c, a.iso, 'open_fp', c.file(first))
+            if self.reopen == 'edit':
+                # ... and an edit on the opened image that moves the boot files (a two-sector file that sorts first)
+                a.first = None
+                moved = bytes((i * 5 + 1) & 0xff for i in range(4097))
+                k = dict(iso_path='/00MOVE.;1')
+                kw = get_history(self.history)[0]
+                if 'rock_ridge' in kw:
+                    k['rr_name'] = '00move'
+                if 'joliet' in kw:
+                    k['joliet_path'] = '/00move'
+                if 'udf' in kw:
+                    k['udf_path'] = '/00move'
+                S.call(c, a.iso, 'add_fp', S.data_file(c, moved), 4097, **k)
+                cid = len(a.st['contents'])
+                a.st['contents'][cid] = moved
+                a.st['files']['/00MOVE.;1'] = cid
         a.out = c.file(b'')
         return Call([a.out], self_obj=a.iso)
 
@@ -259,7 +277,7 @@ class BootImage(Base):
         img = list(a.out.items) if c.symbolic else list(a.out.getvalue())
         st = a.st
         cl = {}
-        if self.reopen:
+        if self.reopen and a.first is not None:
             cl['remastering-is-a-fixpoint'] = Eq(V.mk_bytes(img), a.first)
         try:
             im, res = R.read_iso(img)
